@@ -53,10 +53,10 @@ func FmtDiffs(input string) ([]FmtDiff, error) {
 					NewText:  "",
 				})
 			}
-		} else if diff.FromLine > lastEnd+1 {
+		} else if diff.FromLine > lastEnd && lines.rangeLines(lastEnd, diff.FromLine) != "\n" {
 			// FromLine == LastEnd  means no gap
-			// FromLine == LastEnd + 1  is one line gap, OK
-			// FromLine > LastEnd + 1 should be one line
+			// Any gap becomes exactly one empty line, as in Fmt; a gap
+			// which already is one empty line is left alone.
 			out = append(out, FmtDiff{
 				FromLine: lastEnd,
 				ToLine:   diff.FromLine,
